@@ -19,11 +19,39 @@ def registered_linear_pass(ctx):
     def f_neg(x): return -x - (2 - ~x)
     def f_two(x, y): return (5 - x) + (y - 2) - (x - y)
     def f_inv(x): return 1 - x.involute() + (7 - x.conjugate())
+    # sums and differences whose operands have fractional coefficients on the symbolic route (an inverse or a quotient on one side,
+    # a polynomial on the other), and a plain number minus a quotient
+    def f_pm_inv(x, y): return (x - y.inv()) + (x + y.inv())
+    def f_inv_pm(x, y): return (y.inv() - x) + (y.inv() + x)
+    def f_num_quot(x, y): return (1 - x / y) + (2 + x / y)
+    def f_quot_quot(x, y): return x / y - y / x
+    funcs_frac = [('(x - y.inv()) + (x + y.inv())', f_pm_inv, 2), ('(y.inv() - x) + (y.inv() + x)', f_inv_pm, 2), ('(1 - x / y) + (2 + x / y)', f_num_quot, 2),
+                  ('x / y - y / x', f_quot_quot, 2)]
     funcs = [('3 - x', f_nl, 1), ('x - 3', f_nr, 1), ('3 + x', f_al, 1), ('x + 3', f_ar, 1), ('-x - (2 - ~x)', f_neg, 1),
              ('(5 - x) + (y - 2) - (x - y)', f_two, 2), ('1 - x.involute() + (7 - x.conjugate())', f_inv, 1)]
     for sig in ([1, 1, 1], [0, 1, 1], [1, -1, 1, 1]):
         alg = make_algebra(sig)
         N = 2 ** alg.d
+        for nm, f, ar in funcs_frac:
+            try:
+                rf = alg.register(symbolic=True)(f)
+            except Exception:
+                continue
+            for kx, ky in (([1, 2], [1, 2]), ([0, 1], [1]), ([1, 2], [0]), ([0, 3], [0, 3])):
+                kx = [k for k in kx if k < N]; ky = [k for k in ky if k < N]
+                args = [MultiVector.fromkeysvalues(alg, tuple(kx), [Fraction(rng.randint(1, 9)) for _ in kx]), MultiVector.fromkeysvalues(alg, tuple(ky), [Fraction(rng.randint(2, 9)) for _ in ky])]
+                case = {'sig': sig, 'function': nm, 'symbolic_route': True, 'keys': [kx, ky]}
+                ctx.case(case, tag='registered-linear:fractions')
+                try:
+                    exp = mv_to_dict(f(*args))
+                    got = mv_to_dict(rf(*args))
+                except ZeroDivisionError:
+                    continue
+                except Exception as e:
+                    ctx.count('registered-linear:fractions:raises:' + type(e).__name__)
+                    continue
+                if got != exp:
+                    ctx.violation('registered-differs', case, str(exp)[:200], str(got)[:200], key='registered:linear:symbolic:fractions')
         for nm, f, ar in funcs:
             for symbolic in (False, True):
                 try:
@@ -81,7 +109,7 @@ def scalar_operand_pass(ctx):
                 'list-of-arrays': lambda: [np.array([b, b + 1.0]) for b in base], 'ndarray-2d': lambda: np.array([[b, b + 1.0, b + 2.0] for b in base]),
             }
             for cname, mk in containers.items():
-                for sc in (2.5, 3, -1.5):
+                for sc in (2.5, 3, -1.5, np.float64(2.5), np.int64(3), np.float32(0.5)):
                     x = MultiVector.fromkeysvalues(alg, tuple(keys), mk())
                     xd = asdict(x)
                     plus = dict(xd); plus[0] = plus.get(0, np.zeros(1)) + sc
@@ -91,7 +119,7 @@ def scalar_operand_pass(ctx):
                              's - a': (lambda: sc - x, rminus), 'alg.add(a, s)': (lambda: alg.add(x, sc), plus),
                              'alg.sub(s, a)': (lambda: alg.sub(sc, x), rminus)}
                     for fname, (thunk, exp) in forms.items():
-                        case = {'sig': sig, 'keys': list(keys), 'container': cname, 'scalar': sc, 'form': fname}
+                        case = {'sig': sig, 'keys': list(keys), 'container': cname, 'scalar': float(sc), 'scalar_type': type(sc).__name__, 'form': fname}
                         ctx.case(case, tag='scalar-operand')
                         try:
                             got = asdict(thunk())
